@@ -110,9 +110,10 @@ pub fn cases(seed: u64, n_random: usize) -> Vec<Case> {
                 spec.plan.scan_delay_ms = delay;
                 spec.plan.scan_cmdline = mode;
                 let recognisable = mode == 2 && parent.is_some();
-                // mode 3 hides only the parent: delta then looks at processes with neighbouring pids,
-                // which in this sandbox can be another worker's stand-in for git - no comparison there
-                let group = if recognisable { "piped-0".to_string() } else if mode == 3 { String::new() } else { format!("scanfault-{}-{}", mode, gi) };
+                // when the parent is hidden delta goes on to look at other processes, which in this
+                // sandbox can be another worker's stand-in for git: no comparison in those modes
+                let _ = gi;
+                let group = if recognisable { "piped-0".to_string() } else { String::new() };
                 out.push(Case { name: format!("scan fault {} ({}), scan takes {} ms", mode, parent.as_ref().map(|p| p.join(" ")).unwrap_or_else(|| "no recognisable parent".into()), delay), spec, expect_exit: 0, tokens: vec![900, 901], group, must_highlight: recognisable });
             }
         }
